@@ -466,13 +466,40 @@ def search(res, rng, disagreements, pfail):
   return found
 
 
+def witnesses(res):
+  """W: known findings are replayed with the property's own oracle (still failing -> KNOWN-FINDING line);
+  fixed ones must pass (a fixed entry suppresses nothing)."""
+  known, fixed = common.known_findings("C01")
+  entries = [(e, True) for e in known] + [(e, False) for e in fixed]
+  srcs = [e["witness"]["source"] for e, _ in entries]
+  if not srcs:
+    return
+  results = vmpool.analyze_many(srcs)
+  replayed = []
+  for (e, is_known), src, r in zip(entries, srcs, results):
+    fails = None
+    if "exception" not in r:
+      try:
+        c = c01x.check_program(src, r["pyi"])
+        fails = bool(c and c[0])
+      except SyntaxError:
+        fails = None
+    replayed.append({"id": e["id"], "kind": "known" if is_known else "fixed", "still_fails": fails})
+    if is_known and fails:
+      res.known_lines.append("%s: %s" % (e["id"], e["what"]))
+    if not is_known and fails:
+      res.violation("fixed-witness-%s" % e["id"], {"property": "C01", "kind": "fixed-defect-returned", "entry": e,
+                                                   "source": src, "pytype_stub": r.get("pyi")})
+  res.cov["witnesses_replayed"] = replayed
+
+
 def prepare():
   subprocess.check_call([common.PY, "translate/compat_table.py"], cwd=common.VERIF)
 
 
 def main():
   return common.run_check(
-      "C01", REQUIRED, correspond, None, search, prepare=prepare,
+      "C01", REQUIRED, correspond, witnesses, search, prepare=prepare,
       trusted=["the model covers fragment F1 phase a (module-level assignments, if/else, displays, boolean/conditional "
                "expressions, is None/isinstance tests, undecidable conditions); functions, classes, comprehensions, "
                "subscripts, builtin calls, try/except are NOT modelled",
